@@ -19,6 +19,15 @@ def build(cfg):
         time=cfg.get("time", 0.0),
         cfl=cfg.get("cfl", 0.1),
     )
+    if cfg.get("via_factory") and kind in ("ns2d", "ns3d"):
+        # the documented factory functions (kept "for backward compatibility"): same options, flow_type instead of with_forcing
+        fkw = dict(grid_size=tuple(cfg["shape"]), flow_type="navier_stokes_with_forcing" if cfg.get("forcing") else "navier_stokes",
+                   with_free_stream_flow=cfg.get("free_stream", False), flow_density=cfg.get("rho", 1.0), penalty_zone_width=cfg.get("width", 2), **common)
+        if kind == "ns2d":
+            return sps.create_unbounded_flow_simulator_2d(**fkw)
+        if cfg.get("filter"):
+            fkw.update(filter_vorticity=True, filter_setting_dict={"order": int(cfg["filter"][0]), "type": cfg["filter"][1]})
+        return sps.create_unbounded_flow_simulator_3d(poisson_solver_type=cfg.get("solver", "greens_function_convolution"), **fkw)
     if kind == "ns2d":
         return sps.UnboundedNavierStokesFlowSimulator2D(
             grid_size=tuple(cfg["shape"]),
